@@ -160,6 +160,9 @@ func Alphabet(corner bool) []Sym {
 	jp("json", "add-then-move", `[{"op":"add","path":"/fresh","value":{"k":1}},{"op":"move","from":"/fresh","path":"/moved"}]`)
 	jp("json", "insert-then-copy-index", `[{"op":"add","path":"/a2","value":["x","y"]},{"op":"add","path":"/a2/0","value":"z"},{"op":"copy","from":"/a2/0","path":"/first"}]`)
 	jp("json", "remove-then-copy-fails", `[{"op":"add","path":"/gone","value":1},{"op":"remove","path":"/gone"},{"op":"copy","from":"/gone","path":"/c4"}]`)
+	// explicit null is a value like any other (RFC 6902 requires the member, not a non-null content), and so are false, 0, "" and []
+	jp("json", "null-values", `[{"op":"add","path":"/nothing","value":null},{"op":"test","path":"/nothing","value":null},{"op":"replace","path":"/nothing","value":null},{"op":"add","path":"/alsoNothing","value":null}]`)
+	jp("json", "empty-values", `[{"op":"add","path":"/f","value":false},{"op":"add","path":"/z","value":0},{"op":"add","path":"/e","value":""},{"op":"add","path":"/l","value":[]},{"op":"test","path":"/f","value":false},{"op":"replace","path":"/z","value":0}]`)
 	jp("json", "fails-second", `[{"op":"add","path":"/t2","value":1},{"op":"remove","path":"/nonexistent"}]`)
 	// a list whose second operation makes the RFC 6902 library panic (negative index) after the first one has been applied
 	jp("json", "fails-second-by-library-panic", `[{"op":"add","path":"/pp","value":[1]},{"op":"replace","path":"/pp/-1","value":2}]`)
